@@ -24,9 +24,11 @@ fn main() {
             let thorough = args[3] == "thorough";
             let seed: u64 = args[4].parse().expect("seed");
             let out = &args[5];
+            let shard: usize = args.get(6).map(|s| s.parse().expect("shard")).unwrap_or(0);
+            let nshards: usize = args.get(7).map(|s| s.parse().expect("nshards")).unwrap_or(1);
             let mut f = std::io::BufWriter::new(std::fs::File::create(out).expect("create out"));
             let mut n = 0usize;
-            suites::run(suite, thorough, seed, &mut |line: String| {
+            suites::run(suite, thorough, seed, shard, nshards, &mut |line: String| {
                 f.write_all(line.as_bytes()).unwrap();
                 f.write_all(b"\n").unwrap();
                 n += 1;
